@@ -12,6 +12,7 @@ import (
 	"encoding/hex"
 	"fmt"
 	"sort"
+	"strings"
 	"time"
 
 	"github.com/gnolang/gno/tm2/pkg/amino"
@@ -82,12 +83,16 @@ type oracle struct {
 	ref map[int]*nodeRef
 
 	maxSigned map[int][3]int64 // per node: highest (height, round, step) released
+
+	// cumulative (across lives) record of the valid prevotes each node was handed, per height/round/block:
+	// the evidence a node can have had for unlocking (amnesia oracle)
+	seenPrevotes map[int]map[int64]map[int]map[string]map[int]bool
 }
 
 func newOracle(s *sim) *oracle {
 	o := &oracle{s: s, blocks: map[string]*blockInfo{}, heights: map[int64]*heightRec{}, twinVals: map[int64]*types.ValidatorSet{},
 		twinParams: map[int64]abci.ConsensusParams{}, appHash: map[int64][]byte{}, resHash: map[int64][]byte{}, totalTxs: map[int64]int64{},
-		ref: map[int]*nodeRef{}, maxSigned: map[int][3]int64{}}
+		ref: map[int]*nodeRef{}, maxSigned: map[int][3]int64{}, seenPrevotes: map[int]map[int64]map[int]map[string]map[int]bool{}}
 	o.topH = s.initialH - 1
 	o.twin = newSimapp(simdb.NewDisk("twin.app", nil).Open())
 	var vals []*types.Validator
@@ -269,6 +274,9 @@ func (o *oracle) rollRef(n *node, rs *cstypes.RoundState) {
 	nr := o.nref(n)
 	if nr.cur != nil && nr.cur.height == rs.Height {
 		return
+	}
+	if n.walFragment && rs.Height > n.walFragmentH {
+		n.walFragment = false // an end-height marker now separates the fragment from what a replay reads
 	}
 	vals := o.twinVals[rs.Height]
 	if vals == nil {
@@ -480,6 +488,109 @@ func (o *oracle) signed(n *node, rl *released) {
 	}
 	if rl.vote != nil && rl.vote.Type == types.PrevoteType && !o.s.stop {
 		o.lockedPrevote(n, rl.vote)
+	}
+	if rl.vote != nil && !o.s.stop {
+		o.notePrevote(n, rl.vote)
+		o.amnesia(n, rl)
+	}
+}
+
+// notePrevote records a signature-checked prevote handed to node n (by the network, by itself).
+func (o *oracle) notePrevote(n *node, v *types.Vote) {
+	if v.Type != types.PrevoteType {
+		return
+	}
+	vals := o.twinVals[v.Height]
+	if vals == nil || v.ValidatorIndex < 0 || v.ValidatorIndex >= vals.Size() {
+		return
+	}
+	addr, val := vals.GetByIndex(v.ValidatorIndex)
+	if addr != v.ValidatorAddress || !val.PubKey.VerifyBytes(v.SignBytes(o.s.chainID), v.Signature) {
+		return
+	}
+	byH := o.seenPrevotes[n.id]
+	if byH == nil {
+		byH = map[int64]map[int]map[string]map[int]bool{}
+		o.seenPrevotes[n.id] = byH
+	}
+	byR := byH[v.Height]
+	if byR == nil {
+		byR = map[int]map[string]map[int]bool{}
+		byH[v.Height] = byR
+		delete(byH, v.Height-3)
+	}
+	byB := byR[v.Round]
+	if byB == nil {
+		byB = map[string]map[int]bool{}
+		byR[v.Round] = byB
+	}
+	k := v.BlockID.Key()
+	if byB[k] == nil {
+		byB[k] = map[int]bool{}
+	}
+	byB[k][v.ValidatorIndex] = true
+}
+
+// polkaOtherThan: was node n ever handed +2/3 prevotes, in round q of height h, for something other than block a?
+func (o *oracle) polkaOtherThan(n *node, h int64, q int, a types.BlockID) bool {
+	vals := o.twinVals[h]
+	if vals == nil {
+		return true
+	}
+	for k, voters := range o.seenPrevotes[n.id][h][q] {
+		if k == a.Key() {
+			continue
+		}
+		var pw int64
+		for i := range voters {
+			_, val := vals.GetByIndex(i)
+			pw += val.VotingPower
+		}
+		if 3*pw > 2*vals.TotalVotingPower() {
+			return true
+		}
+	}
+	return false
+}
+
+// amnesia: the node precommitted block A in round r; signing a prevote/precommit for another block B in a later
+// round r' of the same height is legitimate only if it was handed, in some round q with r < q <= r', +2/3
+// prevotes for something other than A (that is what unlocks it). Across a crash this is C33's "does not sign
+// anything conflicting with what it signed before the crash"; within one life it is C31's locking rule.
+func (o *oracle) amnesia(n *node, rl *released) {
+	v := rl.vote
+	if v == nil || v.BlockID.IsZero() {
+		return
+	}
+	for r := v.Round - 1; r >= 0; r-- {
+		pc, ok := n.signed[fmt.Sprintf("%d/%d/%d", v.Height, r, byte(types.PrecommitType))]
+		if !ok || pc.vote == nil || pc.vote.BlockID.IsZero() {
+			continue
+		}
+		if pc.vote.BlockID.Equals(v.BlockID) {
+			return
+		}
+		for q := r + 1; q <= v.Round; q++ {
+			if o.polkaOtherThan(n, v.Height, q, pc.vote.BlockID) {
+				return
+			}
+		}
+		prop, oracle, root := "C31", "lock_rule_amnesia", ""
+		if pc.life != rl.life {
+			prop, oracle = "C33", "amnesia_after_restart"
+			// name the analysed root causes (NOTES.md) so that they can be listed without masking other amnesia
+			switch n.noReplay[v.Height] {
+			case "_first_height":
+				oracle = "amnesia_after_restart_in_first_height"
+				root = " [root cause: no WAL catch-up replay exists for the first height of a chain: the WAL starts with MetaMessage{0}, catchupReplay(h) needs MetaMessage{h}]"
+			case "_no_end_height_marker":
+				oracle = "amnesia_after_restart_without_end_height_marker"
+				root = " [root cause: the node had died between SaveBlock(h-1) and the end-height marker; the handshake applied the block but nobody writes the marker, so height h has no replayable WAL]"
+			}
+		}
+		o.s.fail(prop, oracle, "n%d precommitted %X in round %d of height %d (life %d) and then signed %s (life %d) although it was never handed +2/3 prevotes for anything else in rounds %d..%d%s",
+			n.id, pc.vote.BlockID.Hash, r, v.Height, pc.life, voteDesc(v), rl.life, r+1, v.Round, root)
+		return
 	}
 }
 
@@ -1090,19 +1201,24 @@ func (o *oracle) afterRestart(n *node) {
 			got = vs.GetByIndex(idx)
 		}
 		if got == nil || !bytes.Equal(got.Signature, v.Signature) {
-			oracle := "own_votes_not_replayed"
+			// "WAL not replayed" is not a C33 sentence by itself: counted as an anomaly; its consequences (a conflicting
+			// signature, a node that cannot rejoin) are what the C33/C34 oracles decide
+			kind := "anomaly:own_votes_not_replayed"
 			if rs.Height == s.initialH {
 				// the WAL of a fresh chain starts with MetaMessage{0}; catchupReplay(h) wants MetaMessage{h}
-				oracle = "own_votes_not_replayed_first_height"
+				kind = "anomaly:own_votes_not_replayed_first_height"
 			} else if _, found, _ := n.wal.SearchForHeight(rs.Height, &walm.WALSearchOptions{IgnoreDataCorruptionErrors: true}); !found {
 				// block h-1 was saved, the node died before the end-height marker, the handshake applied the block:
 				// the WAL never gets a marker for it and height h runs without a replayable WAL
-				oracle = "own_votes_not_replayed_no_end_height_marker"
+				kind = "anomaly:own_votes_not_replayed_no_end_height_marker"
 			}
-			s.fail("C33", oracle, "n%d restarted into height %d without its own %s (signed, WAL-synced and added before the crash): catch-up replay did not restore it (has %v)", n.id, rs.Height, voteDesc(v), got)
-			if s.stop {
-				return
+			s.r.Probe(kind)
+			s.event("%s n%d h=%d (%s)", kind, n.id, rs.Height, voteDesc(v))
+			s.walNotReplayed = true
+			if n.noReplay == nil {
+				n.noReplay = map[int64]string{}
 			}
+			n.noReplay[rs.Height] = strings.TrimPrefix(kind, "anomaly:own_votes_not_replayed")
 			break
 		}
 		s.r.Probe("own_vote_restored_by_wal_replay")
